@@ -137,8 +137,8 @@ PROPS["C05"] = {
 PROPS["C14"] = {
     "confirm_reruns": True,
     "id": "C14",
-    "lean_modules": ["JT.Props.C14"],
-    "extractors": ["concshape"],
+    "lean_modules": ["JT.Props.C14", "JT.Props.C14Src"],
+    "extractors": ["concshape", "golean"],
     "functional_ops": ["rereqsock"],
     "rule": ("transfers of 2..12 (thorough: up to 255) packets with a random non-empty set of missing numbers, optional second concurrent transfer, then 1..5 rounds of idle time from {0,1,2,4,5,6,9,11,30,54,59,60,61 s} followed by inbound data "
              "(heartbeat, partial resupply, full resupply), late packets after completion/expiry; EXHAUSTIVELY every non-empty missing subset for N <= 6 (thorough <= 10) with idle 4 s / +2 s / +1 s. "
@@ -248,7 +248,7 @@ PROPS["C03"] = {
 
 PROPS["C07"] = {
     "id": "C07",
-    "lean_modules": ["JT.Props.C07", "JT.Props.C07Src", "JT.Props.C16Src"],
+    "lean_modules": ["JT.Props.C07", "JT.Props.C07Src", "JT.Props.C16Src", "JT.Props.C14Src"],
     "extractors": ["layouts", "paramtable", "golean"],
     "functional_ops": ["rt"],
     "rule": ("for each of the ~33 two-way message types x protocol version (2011/2013/2019 where layouts differ) x active-safety dialect: in-domain values generated as Go structs (fixed-width strings without NUL, BCD times, GBK-encodable text incl. Chinese, count/length fields consistent, "
